@@ -8,6 +8,8 @@
 package c19
 
 import (
+	"github.com/crossplane/crossplane-runtime/pkg/resource"
+	"github.com/crossplane/crossplane-runtime/pkg/resource/unstructured/composed"
 	"context"
 	"encoding/json"
 	"fmt"
@@ -371,6 +373,12 @@ func body(r *explore.Run, rep *report.R, sc string, depth int, form usageForm, p
 		}
 	}
 	events := []string{"reconcile-u1", "reconcile-u2", "create-u1", "create-u2", "delete-u1", "delete-u2", "delete-used", "delete-user", "gc", "clock", "recreate-user"}
+	if form.composed {
+		// The XR named by u1's composite label composes a Usage of that name:
+		// its composer applies the rendered Usage the way composition_pt.go
+		// does (real applicator, real apply options).
+		events = append(events, "composite-applies-u1")
+	}
 	var trail []string
 	refused, allowed := 0, 0
 	for step := 0; step < depth; step++ {
@@ -401,6 +409,34 @@ func body(r *explore.Run, rep *report.R, sc string, depth int, form usageForm, p
 				na := res(usingGK, "v1", "app")
 				na.SetLabels(map[string]string{"role": "app"})
 				_ = user.Create(ctx, na)
+			}
+		case "composite-applies-u1":
+			before := s.Peek(usageKey("u1"))
+			if before != nil && before.GetDeletionTimestamp() != nil {
+				continue
+			}
+			raw, err := runtime.DefaultUnstructuredConverter.ToUnstructured(mkUsage("u1", form))
+			if err != nil {
+				panic(err)
+			}
+			d := composed.New()
+			d.Object = raw
+			delete(d.Object, "status")
+			t := true
+			d.SetOwnerReferences([]metav1.OwnerReference{{APIVersion: "example.org/v1", Kind: "XThing", Name: "some-xr", UID: "some-xr-uid", Controller: &t, BlockOwnerDeletion: &t}})
+			cc := s.Client("composite")
+			aerr := resource.NewAPIPatchingApplicator(cc).Apply(ctx, d, resource.MustBeControllableBy("some-xr-uid"), usagectrl.RespectOwnerRefs())
+			desc = fmt.Sprintf("%s err=%v", ev, aerr)
+			if after := s.Peek(usageKey("u1")); before != nil && after != nil {
+				for _, o := range before.GetOwnerReferences() {
+					kept := false
+					for _, a := range after.GetOwnerReferences() {
+						kept = kept || a.UID == o.UID
+					}
+					if !kept {
+						r.Failf("M5/owner-dropped-by-composite", "the composite's apply of Usage u1 removed its owner reference to %s %s (owners %v -> %v): a Usage owned by its using resource no longer is, so deleting the user does not release the used resource", o.Kind, o.Name, before.GetOwnerReferences(), after.GetOwnerReferences())
+					}
+				}
 			}
 		case "gc":
 			s.GCRun()
